@@ -41,6 +41,7 @@ impl Clone for EntryChangeState { #[verifier::external_body] fn clone(&self) -> 
 //@extract EntryIncremental
 //@extract EntryInvalid
 //@extract EntrySealed
+//@extract EntryValid
 //@extract Entry
 pub type EntrySealedCommitted = Entry<EntrySealed, EntryCommitted>;
 pub type EntryIncrementalCommitted = Entry<EntryIncremental, EntryCommitted>;
@@ -74,6 +75,22 @@ impl<STATE> Entry<EntryInvalid, STATE> {
     #[verifier::external_body] pub fn add_ava(&mut self, attr: Attribute, value: Value) { unimplemented!() }
     #[verifier::external_body] pub fn purge_ava(&mut self, attr: Attribute) { unimplemented!() }
 }
+// ---- validate_repl (C08: "schema-invalid -> conflict"): the schema check of a merged entry. What the schema accepts is opaque; a
+// rejected entry is kept — same uuid, same change state, same stored id — and is marked recycled + conflict with its own uuid as source ----
+pub struct SchemaError { pub o: u8 }
+pub uninterp spec fn schema_valid(attrs: Map<Attribute, ValueSet>, s: &KvxSchema) -> bool;
+pub uninterp spec fn with_value(attrs: Map<Attribute, ValueSet>, a: Attribute, v: Value) -> Map<Attribute, ValueSet>;   // add_ava_int: that value added to that attribute
+pub open spec fn conflict_marked(r: Map<Attribute, ValueSet>, before: Map<Attribute, ValueSet>, uuid: Uuid) -> bool {
+    r == with_value(with_value(with_value(before, Attribute::Class, Value::Class(EntryClass::Recycled)), Attribute::Class, Value::Class(EntryClass::Conflict)), Attribute::SourceUuid, Value::Uuid(uuid))
+}
+impl vstd::std_specs::convert::FromSpecImpl<EntryClass> for Value { open spec fn obeys_from_spec() -> bool { true } open spec fn from_spec(c: EntryClass) -> Value { Value::Class(c) } }
+impl From<EntryClass> for Value { fn from(c: EntryClass) -> (r: Value) { Value::Class(c) } }
+impl<STATE> Entry<EntryValid, STATE> {
+    #[verifier::external_body] pub fn validate(&self, schema: &KvxSchema) -> (r: Result<(), SchemaError>) ensures r is Ok == schema_valid(self.attrs@, schema) { unimplemented!() }
+    #[verifier::external_body] pub fn add_ava_int(&mut self, attr: Attribute, value: Value)
+        ensures final(self).attrs@ == with_value(old(self).attrs@, attr, value), final(self).valid == old(self).valid, final(self).state == old(self).state { unimplemented!() }
+}
+pub type EntryValidCommitted = Entry<EntryValid, EntryCommitted>;
 // &dyn SchemaTransaction: the one observer merge_state uses
 pub struct KvxSchema { pub o: u8 }
 impl KvxSchema {
@@ -201,6 +218,9 @@ impl Entry<EntryIncremental, EntryNew> {
 //@extract is_add_conflict
 //@extract merge_state
 //@extract resolve_add_conflict
+}
+impl Entry<EntryIncremental, EntryCommitted> {
+//@extract validate_repl
 }
 }
 fn main(){}
